@@ -631,6 +631,43 @@ impl StunClient {
         },
         r is Ok ==> decoded(buffer@) is Some && recv_ok_post(*old(self), *final(self), buffer@, decoded(buffer@)->Some_0, instant),
 //@end
+    // what StunMessageTimeout::check(now) popped, read against the client's invariant: the popped entries are the
+    // (unique) timers of distinct outstanding requests, all due; what is left belongs to other requests
+    pub proof fn lemma_after_check(&self, ms1: Multiset<TimeoutItem>, removed: Seq<TimeoutItem>, ids: Seq<TransactionId>, now: int)
+        requires self.wf(), check_post(self.timeouts.ms(), ms1, removed, ids, now),
+        ensures
+            ids.len() == removed.len(),
+            forall|k: int| 0 <= k < removed.len() ==> ids[k] == #[trigger] removed[k].transaction_id && removed[k].expiry() <= now,
+            forall|k: int| 0 <= k < removed.len() ==> self.transactions@.contains_key(#[trigger] removed[k].transaction_id)
+                && removed[k] == self.entry(removed[k].transaction_id),
+            forall|a: int, b: int| 0 <= a < b < removed.len() ==> removed[a].transaction_id != removed[b].transaction_id,
+            forall|x: TimeoutItem| #[trigger] ms1.count(x) > 0 ==> self.timeouts.ms().count(x) > 0 && x.expiry() > now
+                && (forall|k: int| 0 <= k < removed.len() ==> x.transaction_id != #[trigger] removed[k].transaction_id),
+            forall|y: TimeoutItem| self.timeouts.ms().count(y) == ms1.count(y) + removed.to_multiset().count(y),
+    {
+        let ms0 = self.timeouts.ms();
+        removed.to_multiset_ensures();
+        assert forall|k: int| 0 <= k < removed.len() implies
+            self.transactions@.contains_key(#[trigger] removed[k].transaction_id) && removed[k] == self.entry(removed[k].transaction_id)
+            && ms0.count(removed[k]) == 1 && ms1.count(removed[k]) == 0 && removed.to_multiset().count(removed[k]) == 1 by {
+            assert(removed.contains(removed[k]));
+            assert(removed.to_multiset().count(removed[k]) > 0);
+            assert(ms0.count(removed[k]) == ms1.count(removed[k]) + removed.to_multiset().count(removed[k]));
+        }
+        assert forall|a: int, b: int| 0 <= a < b < removed.len() implies removed[a].transaction_id != removed[b].transaction_id by {
+            if removed[a].transaction_id == removed[b].transaction_id {
+                assert(removed[a] == removed[b]);
+                lemma_count_two(removed, a, b);
+            }
+        }
+        assert forall|x: TimeoutItem| #[trigger] ms1.count(x) > 0 implies ms0.count(x) > 0 && x.expiry() > now
+            && (forall|k: int| 0 <= k < removed.len() ==> x.transaction_id != #[trigger] removed[k].transaction_id) by {
+            assert(ms0.count(x) == ms1.count(x) + removed.to_multiset().count(x));
+            assert forall|k: int| 0 <= k < removed.len() implies x.transaction_id != #[trigger] removed[k].transaction_id by {
+                if x.transaction_id == removed[k].transaction_id { assert(x == removed[k]); }
+            }
+        }
+    }
     pub proof fn lemma_empty_iff(&self)
         requires self.wf(),
         ensures self.timeouts.ms().len() == 0 <==> self.transactions@.len() == 0,
@@ -665,29 +702,20 @@ impl StunClient {
     let ghost removed = choose|removed: Seq<TimeoutItem>| check_post(c0.timeouts.ms(), self.timeouts.ms(), removed, timed_out@, now);
     let ghost ms1 = self.timeouts.ms();
     proof {
-        assert(check_post(c0.timeouts.ms(), ms1, removed, timed_out@, now));
-        lemma_check_post_unfold(c0.timeouts.ms(), ms1, removed, timed_out@, now);
+        c0.lemma_after_check(ms1, removed, timed_out@, now);
         assert(forall|k: int| 0 <= k < removed.len() ==> timed_out@[k] == #[trigger] removed[k].transaction_id && removed[k].expiry() <= now);
-        removed.to_multiset_ensures();
-        // every popped entry was the (unique) timer of an outstanding request
-        assert forall|k: int| 0 <= k < removed.len() implies
-            c0.transactions@.contains_key(#[trigger] removed[k].transaction_id) && removed[k] == c0.entry(removed[k].transaction_id)
-            && c0.timeouts.ms().count(removed[k]) == 1 && ms1.count(removed[k]) == 0 && removed.to_multiset().count(removed[k]) == 1 by {
-            assert(removed.contains(removed[k]));
-            assert(removed.to_multiset().count(removed[k]) > 0);
-            assert(c0.timeouts.ms().count(removed[k]) == ms1.count(removed[k]) + removed.to_multiset().count(removed[k]));
-        }
-        assert forall|a: int, b: int| 0 <= a < b < removed.len() implies removed[a].transaction_id != removed[b].transaction_id by {
-            if removed[a].transaction_id == removed[b].transaction_id {
-                assert(removed[a] == removed[b]);
-                lemma_count_two(removed, a, b);
-            }
-        }
-        assert forall|x: TimeoutItem| #[trigger] ms1.count(x) > 0 implies c0.timeouts.ms().count(x) > 0
-            && (forall|k: int| 0 <= k < removed.len() ==> x.transaction_id != #[trigger] removed[k].transaction_id) by {
-            assert(c0.timeouts.ms().count(x) == ms1.count(x) + removed.to_multiset().count(x));
-            assert forall|k: int| 0 <= k < removed.len() implies x.transaction_id != #[trigger] removed[k].transaction_id by {
-                if x.transaction_id == removed[k].transaction_id { assert(x == removed[k]); }
+        assert forall|id: TransactionId| #[trigger] self.transactions@.contains_key(id)
+            && (forall|k: int| 0 <= k < removed.len() ==> #[trigger] removed[k].transaction_id != id) implies self.tr_ok(id) by {
+            assert(c0.tr_ok(id));
+            assert(ms1.count(c0.entry(id)) > 0) by {
+                let x = c0.entry(id);
+                if ms1.count(x) == 0 {
+                    assert(removed.to_multiset().count(x) > 0);
+                    removed.to_multiset_ensures();
+                    assert(removed.contains(x));
+                    let k = choose|k: int| 0 <= k < removed.len() && removed[k] == x;
+                    assert(removed[k].transaction_id == id);
+                }
             }
         }
     }
@@ -703,7 +731,6 @@ impl StunClient {
         }
         assert(ids.no_duplicates());
         removed.to_multiset_ensures();
-        lemma_check_post_unfold2(c0.timeouts.ms(), ms1, removed, timed_out@, now);
         // every request that was due has been served
         assert forall|id: TransactionId| c0.transactions@.contains_key(id) && dl(c0.transactions@, id) <= now implies ids.contains(id) by {
             let x = c0.entry(id);
